@@ -1,8 +1,10 @@
 """C13 — error suppression is exact and the exit status tells the truth.
 
 T  tools/extractors/t13.py  -> coq/gen/ErrorsCore.v (is_ignored_error, is_error_code_enabled, count_stats, exit status)
-P+A C13/Properties.v (always) and ONE of C13/PropertiesExit.v (positive exit_code_truth; builds once count_stats is
-    position-aware) / C13/PropertiesExitRefuted.v (exit_code_refuted; builds on the substring version -> finding F1)
+    and copies the exit-status alternative that applies (coq/C13/alt/Exit{Truth,Refuted}{,Proofs}.v.txt) to
+    coq/gen/ErrorsExit{,Proofs}.v
+P+A C13/Properties.v (always) and gen/ErrorsExit.v (exit_code_truth* when count_stats is position-aware;
+    exit_code_refuted on the substring version -> finding F1)
 C  (1) translated predicates vs the real methods/functions (self-correspondence);
    (2) real mypy.errors.Errors instances driven with generated ErrorInfo streams vs the Coq model (vm_compute)
 S  metamorphic runs of real mypy (in-process build.build, no cache) on programs of test-data/unit/check-*.test:
@@ -61,8 +63,10 @@ def c_code(code: dict | None) -> str:
 
 
 def c_info(i: dict) -> str:
-    return (f"(mk_info {cz(i['id'])} {cz(i['line'])} {cz(i['col'])} {clist([cz(x) for x in i['span']])} {c_code(i['code'])} "
-            f"{cb(i['error'])} {cb(i['blocker'])} {cb(i['once'])} {cs(i['msg'])} {copt(cz(i['parent']) if i['parent'] is not None else None)} {cs('t')})")
+    el, ec = i.get("endline", i["line"]), i.get("endcol", i["col"] + 1)
+    return (f"(mk_info {cz(i['id'])} {cz(i['line'])} {cz(i['col'])} {cz(el)} {cz(ec)} {clist([cz(x) for x in i['span']])} {c_code(i['code'])} "
+            f"{cb(i['error'])} {cb(i['blocker'])} {cb(i['once'])} {cs(i['msg'])} {copt(cz(i['parent']) if i['parent'] is not None else None)} {cs('t')} "
+            f"{cz(i.get('ctx', 0))} {cz(i.get('prio', 0))} {cb(i.get('hidden', False))})")
 
 
 def c_dict(d: list[tuple[int, list[str]]]) -> str:
@@ -875,21 +879,24 @@ def gen_case(rng: Any, codes_mod: Any, orig_map: dict) -> dict:
            "skipped": rng.sample(range(1, nlines + 1), rng.choice([0, 0, 1, 2])),
            "disabled": rng.sample(pool, rng.choice([0, 0, 1, 2])), "enabled": rng.sample(pool, rng.choice([0, 0, 1, 2]))}
     infos = []
-    for k in range(rng.randint(0, 7)):
+    for k in range(rng.randint(0, 8)):
         line = rng.randint(1, nlines)
         r = rng.random()
         span = [line] if r < 0.6 else (list(range(max(1, line - 2), line + 1)) if r < 0.8 else sorted(rng.sample(range(1, nlines + 1), 2), reverse=rng.random() < 0.5))
         blocker = rng.random() < 0.1
-        code = None if rng.random() < (0.5 if blocker else 0.08) else rng.choice(pool)
+        code = None if rng.random() < (0.5 if blocker else 0.08) else (rng.choice(["import", "import-not-found", "import-untyped"]) if rng.random() < 0.2 else rng.choice(pool))
         error = blocker or rng.random() < 0.65
         parent = None
         if not error and infos and rng.random() < 0.4:
             cands = [j for j in infos if j["error"]]
             if cands:
                 parent = rng.choice(cands)["id"]
-        infos.append({"id": k, "line": line, "col": rng.choice([-1, 0, 4]), "span": span, "codename": code, "error": error,
+        col = rng.choice([-1, 0, 4])
+        infos.append({"id": k, "line": line, "col": col, "endline": line + rng.choice([0, 0, 1]), "endcol": col + rng.choice([1, 1, 3]),
+                      "span": span, "codename": code, "error": error, "ctx": rng.choice([0, 0, 0, 1]),
+                      "prio": rng.choice([0, 0, 0, 20, -1]),
                       "blocker": blocker, "once": rng.random() < 0.15, "msg": rng.choice(MSGS), "parent": parent})
-    return {"cfg": cfg, "infos": infos, "warn": rng.random() < 0.5}
+    return {"cfg": cfg, "infos": infos, "warn": rng.random() < 0.5, "thr": rng.choice([200, 200, -1, 0, 1, 2, 3, 5])}
 
 
 def drive_impl(case: dict, E: Any, codes_mod: Any, Options: Any) -> dict:
@@ -897,6 +904,7 @@ def drive_impl(case: dict, E: Any, codes_mod: Any, Options: Any) -> dict:
     o = Options()
     o.disabled_error_codes = {codes_mod.error_codes[c] for c in cfg["disabled"]}
     o.enabled_error_codes = {codes_mod.error_codes[c] for c in cfg["enabled"]}
+    o.many_errors_threshold = case["thr"]
     errs = E.Errors(o)
     f = "f.py"
     errs.set_file(f, "m", o)
@@ -908,10 +916,11 @@ def drive_impl(case: dict, E: Any, codes_mod: Any, Options: Any) -> dict:
     objs: dict[int, Any] = {}
     ids: dict[int, int] = {}
     for i in case["infos"]:
-        info = E.ErrorInfo(import_ctx=[], local_ctx=(None, None), line=i["line"], column=i["col"], end_line=i["line"],
-                           end_column=i["col"] + 1, severity="error" if i["error"] else "note", message=i["msg"],
+        info = E.ErrorInfo(import_ctx=[("imp.py", i["ctx"])] if i["ctx"] else [], local_ctx=(None, None), line=i["line"],
+                           column=i["col"], end_line=i["endline"],
+                           end_column=i["endcol"], severity="error" if i["error"] else "note", message=i["msg"],
                            code=codes_mod.error_codes[i["codename"]] if i["codename"] else None, blocker=i["blocker"],
-                           only_once=i["once"], module="m", target="t", origin_span=list(i["span"]),
+                           only_once=i["once"], module="m", target="t", origin_span=list(i["span"]), priority=i["prio"],
                            parent_error=objs[i["parent"]] if i["parent"] is not None else None)
         objs[i["id"]] = info
         ids[id(info)] = i["id"]
@@ -920,7 +929,9 @@ def drive_impl(case: dict, E: Any, codes_mod: Any, Options: Any) -> dict:
     def snap(lst: list) -> list[dict]:
         res = []
         for x in lst:
-            res.append({"id": ids.get(id(x), -1), "line": x.line, "col": x.column, "span": list(x.origin_span),
+            res.append({"id": ids.get(id(x), -1), "line": x.line, "col": x.column, "endline": x.end_line, "endcol": x.end_column,
+                        "ctx": x.import_ctx[0][1] if x.import_ctx else 0, "prio": x.priority, "hidden": bool(x.hidden),
+                        "span": list(x.origin_span),
                         "code": snap_code(x.code, E.original_error_codes), "error": x.severity == "error", "blocker": bool(x.blocker),
                         "once": bool(x.only_once), "msg": canon_msg(x.message),
                         "parent": ids.get(id(x.parent_error), -1) if x.parent_error is not None else None})
@@ -934,7 +945,9 @@ def drive_impl(case: dict, E: Any, codes_mod: Any, Options: Any) -> dict:
     final_objs = list(errs.error_info_map.get(f, []))
     final = snap(final_objs)
     dedup = snap(errs.remove_duplicates(final_objs))
-    return {"out": out, "used": used, "once": once, "final": final, "dedup": dedup}
+    sorted_objs = errs.sort_messages([x for x in final_objs if not x.hidden])
+    return {"out": out, "used": used, "once": once, "final": final, "dedup": dedup, "sorted": snap(sorted_objs),
+            "printed": snap(errs.remove_duplicates(sorted_objs))}
 
 
 def full_code(name: str | None, codes_mod: Any, orig_map: dict) -> dict | None:
@@ -1008,7 +1021,7 @@ def stage_C(ctx: Any) -> None:
         ctx.add("evaluations", len(exprs))
         ctx.cov["self_correspondence_cases"] = len(exprs)
     # ---- (2) driven Errors vs model
-    n = ctx.n(900, 5000)
+    n = ctx.n(800, 4000)
     cases = [gen_case(rng, codes_mod, E.original_error_codes) for _ in range(n)]
     exprs = []
     impls = []
@@ -1020,8 +1033,14 @@ def stage_C(ctx: Any) -> None:
         infos = [dict(i, code=full_code(i["codename"], codes_mod, E.original_error_codes)) for i in case["infos"]]
         cfg = dict(case["cfg"], sub_map=sub_map)
         obs = (f"(mk_obs {clist([c_info(x) for x in impl['out']])} {c_dict(impl['used'])} {clist([cs(x) for x in impl['once']])} "
-               f"{clist([c_info(x) for x in impl['final']])} {clist([c_info(x) for x in impl['dedup']])})")
-        exprs.append(f"check_case {c_cfg(cfg)} {clist([c_info(x) for x in infos])} {cb(case['warn'])} {clist([cz(l) for l in range(0, 8)])} {obs}")
+               f"{clist([c_info(x) for x in impl['final']])} {clist([c_info(x) for x in impl['dedup']])} "
+               f"{clist([c_info(x) for x in impl['sorted']])} {clist([c_info(x) for x in impl['printed']])})")
+        exprs.append(f"check_case {c_cfg(cfg)} (mk_lim {cz(case['thr'])} 0 0) 0 {clist([c_info(x) for x in infos])} {cb(case['warn'])} "
+                     f"{clist([cz(l) for l in range(0, 8)])} {obs}")
+        if any(x["hidden"] for x in impl["out"]):
+            feat["limiter_hid_infos"] = feat.get("limiter_hid_infos", 0) + 1
+        if [x["id"] for x in impl["sorted"]] != [x["id"] for x in impl["final"] if not x["hidden"]]:
+            feat["sort_reordered"] = feat.get("sort_reordered", 0) + 1
         if impl["used"]:
             feat["ignore_used"] = feat.get("ignore_used", 0) + 1
         if len(impl["out"]) < len(infos):
@@ -1036,10 +1055,10 @@ def stage_C(ctx: Any) -> None:
     if res is not None:
         nbad = 0
         for case, impl, r in zip(cases, impls, res):
-            if r != "[true; true; true; true; true]":
+            if r != "[true; true; true; true; true; true; true]":
                 nbad += 1
                 if nbad <= 3:
-                    ctx.broke("C", "driven Errors vs model", f"check_case = {r} (out, used, once, final, dedup)", {"case": case, "impl": impl})
+                    ctx.broke("C", "driven Errors vs model", f"check_case = {r} (out, used, once, final, dedup, sorted, printed)", {"case": case, "impl": impl})
         ctx.add("evaluations", len(cases))
         ctx.log(f"C: {len(cases)} driven streams, {nbad} disagreements; {n_pred} predicate cases")
         ctx.add("traces_validated_against_impl", len(cases))
@@ -1053,19 +1072,31 @@ def stage_C(ctx: Any) -> None:
 # P + A with the exit-status alternative
 # ======================================================================================
 
-def stage_P(ctx: Any) -> str:
-    ok = ctx.prove("C13/Properties.v", ["C13", "gen", "lib"])
-    # which exit-status theorem applies is decided by what T regenerated: try the positive one silently first
-    vlib.coq_make(vlib.coq_deps_of("C13/PropertiesExit.v"))
-    st, out = vlib.coqc_file("C13/PropertiesExit.v")
-    if st == 0:
-        ctx.prove("C13/PropertiesExit.v", ["C13", "gen", "lib"])
-        ctx.cov["exit_status_theorem"] = "exit_code_truth (count_stats is position-aware)"
-        return "truth"
-    ctx.log("PropertiesExit.v (exit_code_truth) does not build on the regenerated count_stats: " + out.strip().splitlines()[-1][:200])
-    if ctx.prove("C13/PropertiesExitRefuted.v", ["C13", "gen", "lib"]):
-        ctx.cov["exit_status_theorem"] = "exit_code_refuted (count_stats classifies by substring: finding F1)"
-        return "refuted"
+def stage_P(ctx: Any, variant: str | None) -> str:
+    """Properties.v always; then coq/gen/ErrorsExit.v, which t13 copied from coq/C13/alt/ for the variant that applies
+    to the regenerated count_stats.  If that file does not build the other alternative is tried (silently) so that
+    the evidence says which theorem holds; if neither builds the obligation is broken."""
+    ctx.prove("C13/Properties.v", ["C13", "lib"])
+    if variant is None:
+        ctx.cov["exit_status_theorem"] = "translator failed: no exit-status theorem"
+        return "broken"
+    order = [variant, "refuted" if variant == "truth" else "truth"]
+    for k, v in enumerate(order):
+        if k:
+            t13.place_exit(v)
+        vlib.coq_make(vlib.coq_deps_of("gen/ErrorsExit.v"))
+        st, out = vlib.coqc_file("gen/ErrorsExit.v")
+        if st == 0:
+            ctx.prove("gen/ErrorsExit.v", ["C13", "lib"])
+            ctx.cov["exit_status_theorem"] = {
+                "truth": "exit_code_truth, exit_code_truth_final, exit_code_truth_limiter (count_stats is position-aware)",
+                "refuted": "exit_code_refuted (count_stats classifies by substring: finding F1)"}[v]
+            if k:
+                ctx.log(f"note: the syntactic choice was `{variant}` but only `{v}` builds")
+            return v
+        ctx.log(f"gen/ErrorsExit.v (variant {v}) does not build: " + (out.strip().splitlines() or ["?"])[-1][:200])
+    t13.place_exit(variant)
+    ctx.prove("gen/ErrorsExit.v", ["C13", "lib"])      # records the broken obligation with its error
     ctx.cov["exit_status_theorem"] = "neither exit_code_truth nor exit_code_refuted builds"
     return "broken"
 
@@ -1082,8 +1113,9 @@ def run(ctx: Any) -> None:
                        "coded-first-only, wrong-coded, right+wrong, parent-coded, sub-coded, clean-line, mixed} ignore annotations of their "
                        "error lines x disable/enable of codes present; non-trivial = the variant suppresses at least one reported info")
     ctx.assumptions += [
-        "model scope: one file's Errors state; ErrorWatchers, many_errors_threshold hiding, show_error_code_links, sort_messages, "
-        "columns/--pretty/--show-error-context/--output=json rendering are not modelled (S skips runs reaching 150 messages and those flags)",
+        "model scope: one file's Errors state (the many-errors limiter with the other files' counts as parameters); ErrorWatchers, "
+        "show_error_code_links, columns/--pretty/--show-error-context/--output=json rendering are not modelled "
+        "(S skips runs reaching 150 messages and those flags); exit_code_truth_limiter assumes import-coded infos are errors",
         "exit-status theorem is about printed lines `srcloc: severity: text` whose srcloc contains no ': ' (file names without colon-space)",
         "the reported stream is observed by wrapping Errors.add_error_info/_filter_error from outside (no change to /repo)",
         "test-data programs are built like mypy/test/testcheck.py does (lib-stub fixtures, in-process build.build, no cache)",
@@ -1091,11 +1123,13 @@ def run(ctx: Any) -> None:
         "hash-order of the code list in 'use narrower [...]'",
         "translator tools/extractors/t13.py + tools/py2gallina.py (checked by self-correspondence on every run); vm_compute for the model",
     ]
+    variant = None
     try:
         t13.generate()
+        variant = t13.exit_variant()
     except (Unsupported, Exception) as e:  # noqa: BLE001
         ctx.broke("T", "t13 translator", repr(e))
-    verdict = stage_P(ctx)
+    verdict = stage_P(ctx, variant)
     stage_C(ctx)
     stage_S(ctx, verdict)
 
@@ -1106,7 +1140,7 @@ def stage_S(ctx: Any, verdict: str) -> None:
     ctx.cov["corpus_programs"] = len(jobs)
     rng.shuffle(jobs)
     pinned = [j for j in jobs if j["name"] in PINNED]           # past findings: always in the sample
-    jobs = pinned + [j for j in jobs if j["name"] not in PINNED][: int(os.environ.get("VERIF_C13_PROGRAMS", ctx.n(400, 3000)))]
+    jobs = pinned + [j for j in jobs if j["name"] not in PINNED][: int(os.environ.get("VERIF_C13_PROGRAMS", ctx.n(350, 2500)))]
     for k, j in enumerate(jobs):
         j["seed"] = f"{ctx.seed}/{j['name']}"
         j["max_variants"] = ctx.n(6, 12)
